@@ -47,7 +47,7 @@ def s_full(version=5, glat_version=3, compress=(), rtl=False, with_collision=Tru
         attrs = {GA['ga0']: i, GA['ga1']: i % 3}
         adv = 600
         if n in ('acute', 'grave'):
-            adv = 0
+            adv = 0; attrs[GA['bidi']] = 16
             if with_collision:
                 c = GA['coll']
                 attrs.update({c: 1, c + 1: (-200) & 0xFFFF, c + 2: (-200) & 0xFFFF, c + 3: 200, c + 4: 200, c + 5: 10, c + 6: 5})
